@@ -39,6 +39,12 @@ type Prop struct {
 	SweepQuick  int // number of workloads swept completely even in quick (0 = none)
 	Components  map[string]interface{}
 	Assumptions []string
+	// Cold-start runs: this many extra runs are each executed as the FIRST and
+	// only run of a fresh process (what the code under test initialises on first
+	// use - caches, sync.Once, lazily filled tables - is then initialised inside
+	// the run, under the run's schedule).  ColdForce pins tape choices for them.
+	ColdQuick, ColdThorough int
+	ColdForce               map[string]int
 }
 
 var registry = map[string]*Prop{}
